@@ -270,6 +270,32 @@ def _magnetic(ctx, F):
        I.call(I.global_name("magnetic_ff", "formfactor_0"), [(A, a, B, b, C, c, D), q], {}), expr, fsite(ctx, "magnetic_ff.formfactor_0"))
     eq(ctx, "R4", "formfactor_n = s^2 * (same expression)",
        I.call(I.global_name("magnetic_ff", "formfactor_n"), [(A, a, B, b, C, c, D), q], {}), s2 * expr, fsite(ctx, "magnetic_ff.formfactor_n"))
+    # the same on a caller's Q grid (an ndarray is an object: in-place updates are visible to the caller and to the next call)
+    from ptstat.symval import Vec
+    q1, q2 = sp.symbols("q1 q2", positive=True)
+    grid = Vec([q1, q2])
+    for call_no, (fname, factor) in enumerate((("formfactor_0", lambda x: 1), ("formfactor_n", lambda x: (x / (4 * sp.pi)) ** 2),
+                                               ("formfactor_0", lambda x: 1)), 1):
+        got = I.call(I.global_name("magnetic_ff", fname), [(A, a, B, b, C, c, D), grid], {})
+        items = list(got.items) if isinstance(got, Vec) else None
+        ctx.check(items is not None and len(items) == 2, "R4", f"{fname} on a Q grid returns one value per Q (evaluation {call_no})",
+                  f"returned {_s(got)}", fsite(ctx, f"magnetic_ff.{fname}"))
+        if items is not None and len(items) == 2:
+            for j, qj in enumerate((q1, q2)):
+                eq(ctx, "R4", f"{fname} on a Q grid, element {j} (evaluation {call_no} on the same array)", items[j],
+                   factor(qj) * expr.subs(q, qj), fsite(ctx, f"magnetic_ff.{fname}"))
+        ctx.check(list(grid.items) == [q1, q2], "R4", f"{fname} leaves the caller's Q array untouched (evaluation {call_no})",
+                  f"the array now holds {_s(grid.items)}", fsite(ctx, f"magnetic_ff.{fname}"))
+    from ptstat.taint import caller_array_hazards
+    nfun = 0
+    for qual, fn in ctx.src.funcs.items():
+        if fn.module in ("magnetic_ff", "cromermann") and isinstance(fn.node, ast.FunctionDef):
+            nfun += 1
+            for why, node in caller_array_hazards(fn.node):
+                ctx.fail("R4", f"{qual}: {why}", f"{ast.unparse(node)[:80]}: results then depend on what the caller does with its array between calls",
+                         f"{ctx.src.where(fn.module, node)} {qual}")
+    ctx.ok("R4", "no form-factor function updates a caller-supplied array in place or keeps a reference to it",
+           site="periodictable/magnetic_ff.py, cromermann.py", sample={"functions": nfun})
     MF = I.get_class("magnetic_ff.MagneticFormFactor")
     m = I.instantiate(MF, [], {}, name="mff", open_attrs=())
     w.set(m, j0=(A, a, B, b, C, c, D), j2=(D, c, C, b, B, a, A))
@@ -308,7 +334,7 @@ def _magnetic(ctx, F):
               f"{badl[:3]}", "periodictable/magnetic_ff.py CFML_DATA", sample={"lines": n})
     ctx.check(not j0bad, "R4", "every <j0> form factor is 1 at Q = 0 within 0.5 % (A+B+C+D)", f"{j0bad[:5]}",
               "periodictable/magnetic_ff.py CFML_DATA")
-    ctx.floor("R4", 25)
+    ctx.floor("R4", 38)
 
 
 # ------------------------------------------------------------------------------- Cromer-Mann
